@@ -658,6 +658,16 @@ CLAIMS = {
          "Known findings: closures in func-typed positions, nested type switch on one scrutinee, dyn-annotated struct literal; from the name-test catalogue: user functions "
          "named like a builtin, types/packages whose name contains `TParam`, a library function called `main`, items called `main`/`main0`, functions / types / library variants named like a runtime helper function.",
     design_ref="§5 C02; DCE (C02/C09) — as built",
+         "named like a builtin, types/packages whose name contains `TParam`, a library function called `main`, items called `main`/`main0`. "
+         "Definition-only type catalogue (gv c02deftypes; validation, not proof): every kind of type whose Go spelling names a declaration (tuple, array, Ref, Vec, "
+         "dyn Trait implemented / unimplemented / with a rich signature, function type, generic enum / struct instance, extern type; each nested in 11 wrappers: 146 kinds) "
+         "x every place a type can be written without a function mentioning it (18 places: payload of an unbuilt variant, field of an unbuilt struct, struct behind an unused "
+         "variant, generic instance argument / annotation / field, trait method parameter / result, extern signature, second file, other package; plus a control place), "
+         "one program per cell, judged by Go.Check (every named type declared once), the printer parse-back and no-panic (oracle definition-only-type). It found and led to "
+         "fixes e1e8ab3 (dyn Trait only in a type definition) and bce7de3 (runtime type only as a Vec element); known from it: the types of a never-implemented trait's method "
+         "signatures named by its vtable struct are not declared, a generic instance in a trait method signature panics the back end when the trait is used as dyn, an "
+         "extern type of a library package gets a qualified Go name.",
+    design_ref="§5 C02; DCE (C02/C09) — as built; C02 definition-only type catalogue (round 11)",
     note="Trusted: Go.Check as our reading of the Go spec (accepts the 73 corpus programs real Go accepted, rejects 058 as real Go did); "
          "goast dump; goparse.rs as our reading of Go's lexical grammar (the Lean side models Go's expression grammar, string-literal lexing and semicolon rule on the printer's own token pieces, not a character-level Go lexer: adjacency of tokens is proved for the expression subset (glue_free_expr) and checked per item by glueFree); compile.rs is modelled (Model/GoCompile.lean, exact tie `gv gocomp`): the scope rules of its "
          "output are proved for InGoFragment functions (Props/GoCompile.lean compile_wellformed + Props/Dce.lean), typing and everything outside the fragment are validated per program.",
